@@ -196,22 +196,22 @@ package protocol
 // (which is what makes the per-candidate goroutines of Build independent of one another).
 // Candidates whose type does not belong to the selected protocol are outside the contract (the property says so).
 //@ func (s *encoder) Run
-//@   props C09
+//@   props C09,C06,C07,C14
 //@   requires s != nil
 //@   requires s.protocol == "SMPP" ==> typeIs(s.msgFmt, "datacoding.SMPPDataCoding")
 //@   requires s.protocol == "CMPP" ==> typeIs(s.msgFmt, "datacoding.CMPPDataCoding")
 //@   modifies s.canEncode, s.reason, s.data
 //@   ensures [C09 other] s.protocol != "SMPP" && s.protocol != "CMPP" ==> !s.canEncode
-//@   ensures [C09 cmpp.can] s.protocol == "CMPP" ==> (s.canEncode <==> (cmppvalid(dynint(s.msgFmt)) && cmppok(dynint(s.msgFmt), s.content) && (len(cmppenc(dynint(s.msgFmt), s.content)) + 133) / 134 <= 255))
-//@   ensures [C09 cmpp.single] s.protocol == "CMPP" && s.canEncode && len(cmppenc(dynint(s.msgFmt), s.content)) <= 140 ==> len(s.data) == 1 && s.data[0] == cmppenc(dynint(s.msgFmt), s.content)
-//@   ensures [C09 cmpp.multi] s.protocol == "CMPP" && s.canEncode && len(cmppenc(dynint(s.msgFmt), s.content)) > 140 ==> len(s.data) == (len(cmppenc(dynint(s.msgFmt), s.content)) + 133) / 134 && partsOf(s.data, cmppenc(dynint(s.msgFmt), s.content), int(s.frameKey), 134)
-//@   ensures [C09 smpp.can] s.protocol == "SMPP" && dynint(s.msgFmt) != 99 ==> (s.canEncode <==> (smppvalid(dynint(s.msgFmt)) && smppok(dynint(s.msgFmt), s.content) && (len(smppenc(dynint(s.msgFmt), s.content)) + smppper(dynint(s.msgFmt)) - 1) / smppper(dynint(s.msgFmt)) <= 255))
-//@   ensures [C09 smpp.single] s.protocol == "SMPP" && dynint(s.msgFmt) != 99 && s.canEncode && len(smppenc(dynint(s.msgFmt), s.content)) <= smppmax(dynint(s.msgFmt)) ==> len(s.data) == 1 && s.data[0] == smppenc(dynint(s.msgFmt), s.content)
-//@   ensures [C09 smpp.multi134] s.protocol == "SMPP" && dynint(s.msgFmt) != 99 && dynint(s.msgFmt) != 0 && s.canEncode && len(smppenc(dynint(s.msgFmt), s.content)) > 140 ==> len(s.data) == (len(smppenc(dynint(s.msgFmt), s.content)) + 133) / 134 && partsOf(s.data, smppenc(dynint(s.msgFmt), s.content), int(s.frameKey), 134)
-//@   ensures [C09 smpp.multi153] s.protocol == "SMPP" && dynint(s.msgFmt) == 0 && s.canEncode && len(gsmenc(s.content)) > 160 ==> len(s.data) == (len(gsmenc(s.content)) + 152) / 153 && partsOf(s.data, gsmenc(s.content), int(s.frameKey), 153)
-//@   ensures [C09 packed.can] s.protocol == "SMPP" && dynint(s.msgFmt) == 99 ==> (s.canEncode <==> (gsmvalid(s.content) && gsmencodable(s.content) && (len(gsmseptets(s.content)) <= 160 || cuts(gsmseptets(s.content), 0) <= 255)))
-//@   ensures [C09 packed.single] s.protocol == "SMPP" && dynint(s.msgFmt) == 99 && s.canEncode && len(gsmseptets(s.content)) <= 160 ==> len(s.data) == 1 && s.data[0] == packimg(gsmseptets(s.content))
-//@   ensures [C09 packed.count] s.protocol == "SMPP" && dynint(s.msgFmt) == 99 && s.canEncode && len(gsmseptets(s.content)) > 160 ==> len(s.data) == cuts(gsmseptets(s.content), 0)
+//@   ensures [C09,C06,C07,C14 cmpp.can] s.protocol == "CMPP" ==> (s.canEncode <==> (cmppvalid(dynint(s.msgFmt)) && cmppok(dynint(s.msgFmt), s.content) && (len(cmppenc(dynint(s.msgFmt), s.content)) + 133) / 134 <= 255))
+//@   ensures [C09,C06,C07,C14 cmpp.single] s.protocol == "CMPP" && s.canEncode && len(cmppenc(dynint(s.msgFmt), s.content)) <= 140 ==> len(s.data) == 1 && s.data[0] == cmppenc(dynint(s.msgFmt), s.content)
+//@   ensures [C09,C06,C07,C14 cmpp.multi] s.protocol == "CMPP" && s.canEncode && len(cmppenc(dynint(s.msgFmt), s.content)) > 140 ==> len(s.data) == (len(cmppenc(dynint(s.msgFmt), s.content)) + 133) / 134 && partsOf(s.data, cmppenc(dynint(s.msgFmt), s.content), int(s.frameKey), 134)
+//@   ensures [C09,C06,C07,C14 smpp.can] s.protocol == "SMPP" && dynint(s.msgFmt) != 99 ==> (s.canEncode <==> (smppvalid(dynint(s.msgFmt)) && smppok(dynint(s.msgFmt), s.content) && (len(smppenc(dynint(s.msgFmt), s.content)) + smppper(dynint(s.msgFmt)) - 1) / smppper(dynint(s.msgFmt)) <= 255))
+//@   ensures [C09,C06,C07,C14 smpp.single] s.protocol == "SMPP" && dynint(s.msgFmt) != 99 && s.canEncode && len(smppenc(dynint(s.msgFmt), s.content)) <= smppmax(dynint(s.msgFmt)) ==> len(s.data) == 1 && s.data[0] == smppenc(dynint(s.msgFmt), s.content)
+//@   ensures [C09,C06,C07,C14 smpp.multi134] s.protocol == "SMPP" && dynint(s.msgFmt) != 99 && dynint(s.msgFmt) != 0 && s.canEncode && len(smppenc(dynint(s.msgFmt), s.content)) > 140 ==> len(s.data) == (len(smppenc(dynint(s.msgFmt), s.content)) + 133) / 134 && partsOf(s.data, smppenc(dynint(s.msgFmt), s.content), int(s.frameKey), 134)
+//@   ensures [C09,C06,C07,C14 smpp.multi153] s.protocol == "SMPP" && dynint(s.msgFmt) == 0 && s.canEncode && len(gsmenc(s.content)) > 160 ==> len(s.data) == (len(gsmenc(s.content)) + 152) / 153 && partsOf(s.data, gsmenc(s.content), int(s.frameKey), 153)
+//@   ensures [C09,C06,C07,C14 packed.can] s.protocol == "SMPP" && dynint(s.msgFmt) == 99 ==> (s.canEncode <==> (gsmvalid(s.content) && gsmencodable(s.content) && (len(gsmseptets(s.content)) <= 160 || cuts(gsmseptets(s.content), 0) <= 255)))
+//@   ensures [C09,C06,C07,C14 packed.single] s.protocol == "SMPP" && dynint(s.msgFmt) == 99 && s.canEncode && len(gsmseptets(s.content)) <= 160 ==> len(s.data) == 1 && s.data[0] == packimg(gsmseptets(s.content))
+//@   ensures [C09,C06,C07,C14 packed.count] s.protocol == "SMPP" && dynint(s.msgFmt) == 99 && s.canEncode && len(gsmseptets(s.content)) > 160 ==> len(s.data) == cuts(gsmseptets(s.content), 0)
 
 //@ func (s *encoder) Result
 //@   props C09
